@@ -187,7 +187,14 @@ def run(chk):
                 opts[flag] = "MusMusculus" if opts[flag] == "HomoSapiens" else "HomoSapiens"
         prev = (df.copy(deep=True), mapper, dict(opts, standardize=True))
         before = df.copy(deep=True)
-        real = core.call_real(lambda: io.standardize_dataframe(df, col_mapper=mapper, **opts))
+        if t % 5 == 4:
+            # no options given: the documented defaults (standardize, HomoSapiens, functional genes only, gene precision, non-strict CDR3)
+            opts = dict(standardize=True, species="HomoSapiens", tcr_enforce_functional=True, tcr_precision="gene", mhc_precision="gene",
+                        strict_cdr3_standardization=False, suppress_warnings=True)
+            real = core.call_real(lambda: io.standardize_dataframe(df, col_mapper=mapper, suppress_warnings=True) if mapper else
+                                  io.standardize_dataframe(df, suppress_warnings=True))
+        else:
+            real = core.call_real(lambda: io.standardize_dataframe(df, col_mapper=mapper, **opts))
         unchanged = df.equals(before) and list(df.columns) == list(before.columns) and list(df.index) == list(before.index)
 
         def f_for(col, v):
@@ -261,6 +268,9 @@ def run(chk):
             how = ("left", "right")[it % 2]        # many tables with a one-sided join: the grouping of the pairwise merges matters here
         mode = rng.choice(["column", "index", "suffix-column", "suffix-index"])
         kw = {} if how is None else {"how": how}
+        if mode.startswith("suffix") and rng.random() < 0.35:
+            # a data column that happens to be called "index" (what reset_index() leaves behind) is a data column like any other
+            dfs = [d.rename(columns={"val": "index"}) for d in dfs]
         snap = [d.copy(deep=True) for d in dfs]
         if mode == "column":
             # distinct value column names so that no pandas suffixing is involved
